@@ -991,6 +991,11 @@ where
                 if self.connection_state == ConnectionState::Undead {
                     return Ok(());
                 }
+
+                // We renewed our identity, which left us disconnected: go
+                // back online right away if we know of active members,
+                // like learning about our demise via an update does
+                self.adjust_connection_state(&mut runtime);
             }
 
             if self.config.notify_down_members {
@@ -1117,7 +1122,10 @@ where
                 #[cfg(feature = "tracing")]
                 tracing::debug!("The cluster thinks we're down");
 
-                self.handle_self_update(Incarnation::default(), State::Down, runtime)?;
+                self.handle_self_update(Incarnation::default(), State::Down, &mut runtime)?;
+                // If we renewed our identity we're disconnected now: go
+                // back online right away if we know of active members
+                self.adjust_connection_state(runtime);
             }
             // Nothing to do. These messages do not expect any reply
             Message::Gossip | Message::Feed | Message::Broadcast => {}
